@@ -76,7 +76,9 @@ class OracleGenerator(generator.Generator):
         exp.ILike: no_ilike_sql,
         exp.LogicalOr: rename_func("MAX"),
         exp.LogicalAnd: rename_func("MIN"),
-        exp.Mod: lambda self, e: self.func("MOD", *e.unnest_operands()),
+        exp.Mod: lambda self, e: self.func(
+            "MOD", *(arg.unnest() if isinstance(arg, exp.Paren) else arg for arg in e.iter_expressions())
+        ),
         exp.NthValue: nth_value_from_sql,
         exp.Rand: rename_func("DBMS_RANDOM.VALUE"),
         exp.Select: transforms.preprocess(
